@@ -33,7 +33,102 @@ ASSUMPTIONS = ['which default wins when two declarations give different defaults
 FALSY = [0, False, '', []]
 
 
+GLOB_VARS = [('bd', 'x'), ('bd', 'z'), ('bd', 'in', 'u'), ('bd', 'in', 'v'), ('y',), ('w',), ('cd', 'x')]
+
+
+def gen_globs(r):
+    """2-3 processes with a glob port on one store, each declaring some (possibly nested) sub-variables;
+    the children exist only because the initial state names them."""
+    n = r.randint(2, 3)
+    decls = []
+    for j in range(n):
+        vs = r.sample(GLOB_VARS, r.randint(1, 4))
+        decls.append([[list(v), 100 * (j + 1) + k] for k, v in enumerate(vs)])
+    children = ['c%d' % k for k in range(r.randint(1, 3))]
+    given = []
+    for c in children:
+        for v in GLOB_VARS:
+            k = r.random()
+            if k < 0.25:
+                given.append([[c] + list(v), copy.deepcopy(r.choice(FALSY)) if r.random() < 0.4 else r.randint(1, 50)])
+    return {'family': 'globs', 'decls': decls, 'children': children, 'given': given,
+            'store': r.choice([['G'], ['env', 'G'], ['env', 'lab', 'G']]), 'steps': [r.random() < 0.25 for _ in range(n)]}
+
+
+def run_globs(spec):
+    from vivarium.core.engine import Engine
+    from vivarium.core.composer import Composite
+    from vmon.sensors import plain_values
+    V = Viol()
+    G = tuple(spec['store'])
+    procs, steps, tops = {}, {}, {}
+    # a variable declared by several processes keeps one default (different ones belong to the conflict clause)
+    declared = {}
+    for decl in spec['decls']:
+        for v, d in decl:
+            declared.setdefault(tuple(v), [d])
+    for j, decl in enumerate(spec['decls']):
+        sub = {}
+        for v, _ in decl:
+            node = sub
+            for k in v[:-1]:
+                node = node.setdefault(k, {})
+            node[v[-1]] = {'_default': declared[tuple(v)][0]}
+        (steps if spec['steps'][j] else procs)['w%d' % j] = make_probe(spec['steps'][j])({'schema': {'g': {'*': sub}}})
+        tops['w%d' % j] = {'g': G}
+    if not procs:
+        procs['idle'] = make_probe(False)({'schema': {}})
+        tops['idle'] = {}
+    given = {G + tuple(p): v for p, v in spec['given'] if tuple(p[1:]) in declared}
+    for c in spec['children']:
+        if not any(p[len(G)] == c for p in given):
+            v = sorted(declared)[0]
+            given[G + (c,) + v] = 77          # every child is named in the initial state
+    init = nest(given)
+    results = {}
+    for mode in ('parts', 'composite', 'store'):
+        try:
+            if mode == 'parts':
+                e = Engine(processes=dict(procs), steps=dict(steps) or None, topology=copy.deepcopy(tops),
+                           initial_state=copy.deepcopy(init), display_info=False, emitter='null')
+            elif mode == 'composite':
+                e = Engine(composite=Composite({'processes': dict(procs), 'steps': dict(steps), 'topology': copy.deepcopy(tops),
+                                                'state': copy.deepcopy(init)}), display_info=False, emitter='null')
+            else:
+                c = Composite({'processes': dict(procs), 'steps': dict(steps), 'topology': copy.deepcopy(tops)})
+                e = Engine(store=c.generate_store({'initial_state': copy.deepcopy(init)}), display_info=False, emitter='null')
+        except Exception as ex:
+            import traceback
+            V.check('glob_children', False, ('construction through %s raised' % mode, type(ex).__name__, str(ex)[:200],
+                                             traceback.format_exc()[-300:]))
+            continue
+        got = flat(plain_values(e.state.get_value()))
+        results[mode] = got
+        for c in spec['children']:
+            for v, ds in declared.items():
+                ap = G + (c,) + v
+                if ap in given:
+                    V.check('given_value', ap in got and _same(got[ap], given[ap]),
+                            lambda: ('glob child variable %s: initial state gives %r, built with %r (%s)' % (
+                                '/'.join(ap), given[ap], got.get(ap, 'MISSING'), mode)))
+                else:
+                    V.check('glob_children', ap in got and _same(got[ap], ds[0]),
+                            lambda: ('glob child variable %s declared by a sub-schema: expected default %r, built with %r (%s)' % (
+                                '/'.join(ap), ds[0], got.get(ap, 'MISSING'), mode)))
+    if len(results) == 3:
+        a, b, c = results['parts'], results['composite'], results['store']
+        V.check('entry_points_agree', _eqtree(a, b) and _eqtree(a, c),
+                lambda: ('the three entry points built different hierarchies',
+                         {'/'.join(k): (a.get(k), b.get(k), c.get(k)) for k in set(a) | set(b) | set(c)
+                          if not (_same(a.get(k), b.get(k)) and _same(a.get(k), c.get(k)))}))
+    shared_keys = len({v[0] for v in declared}) < len(declared)
+    return {'viol': list(V), 'evals': V.evals, 'nontrivial': len(spec['decls']) >= 2 and shared_keys,
+            'classes': ['glob_declarers'], 'summary': {'declarers': len(spec['decls']), 'children': len(spec['children'])}}
+
+
 def gen(r, tier, i):
+    if r.random() < 0.15:
+        return gen_globs(r)
     case = topo.gen_case(r, maxports=4, allow_collisions=r.random() < 0.5)
     given = []
     for p, v in case['leaves']:
@@ -71,6 +166,8 @@ def _same(a, b):
 
 
 def run(spec):
+    if spec.get('family') == 'globs':
+        return run_globs(spec)
     from vivarium.core.engine import Engine
     from vivarium.core.composer import Composite
     from vivarium.core.store import Store
